@@ -110,7 +110,7 @@ def r02_1(ctx: Ctx) -> None:
             ctx.check(not odd and dom, "R02.1", f, first, "dereferenced entry takes its mode from the re-stat'ed target",
                       f"a dereferenced entry computes its attributes from {sorted(odd) or 'fstat'} not dominated by `fstat = target.stat()`: the link's own mode (0o777) is stored instead of the target's",
                       construct=f"dereferenced {kind} mode source")
-    ctx.floor("R02.1", n_blocks, 5, "posix kind branches of _make_file_info")
+    ctx.floor("R02.1", n_blocks, 3, "posix kind branches of _make_file_info")
     # reader side constants
     af = ctx.prog.cls("ArchiveFile", "py7zr")
     ue = af.methods["_get_unix_extension"]
